@@ -75,7 +75,7 @@ func getCorpus(seed uint64) (*corpusTree, error) {
 		corpusRoot = d
 	}
 	c := &corpusTree{seed: seed, root: filepath.Join(corpusRoot, fmt.Sprintf("t%d", seed))}
-	c.tree = gogen.GenTree(seed, 3, 4)
+	c.tree = gogen.GenTreeOpt(seed, 3, 4, true)
 	write := func(rel, src string) error {
 		p := filepath.Join(c.root, rel)
 		if err := os.MkdirAll(filepath.Dir(p), 0o755); err != nil {
@@ -83,7 +83,7 @@ func getCorpus(seed uint64) (*corpusTree, error) {
 		}
 		return os.WriteFile(p, []byte(src), 0o644)
 	}
-	if err := write("go.mod", "module "+c.tree.Module+"\n\ngo 1.23\n"); err != nil {
+	if err := write("go.mod", c.tree.GoMod("./depmod")); err != nil {
 		return nil, err
 	}
 	for _, f := range c.tree.Files {
@@ -91,8 +91,21 @@ func getCorpus(seed uint64) (*corpusTree, error) {
 			return nil, err
 		}
 	}
+	if c.tree.DepModule != "" {
+		if err := write("depmod/go.mod", "module "+c.tree.DepModule+"\n\ngo 1.23\n"); err != nil {
+			return nil, err
+		}
+		for _, f := range c.tree.DepFiles {
+			if err := write("depmod/"+f.Rel, f.Src); err != nil {
+				return nil, err
+			}
+		}
+	}
 	o, n, desc := gogen.GenPair(seed)
 	c.pairOld, c.pairNew, c.pairDesc = filepath.Join(c.root, "pair/old/p.go"), filepath.Join(c.root, "pair/new/p.go"), desc
+	if err := write("pair/go.mod", "module example.test/pair\n\ngo 1.23\n"); err != nil {
+		return nil, err
+	}
 	if err := write("pair/old/p.go", o); err != nil {
 		return nil, err
 	}
@@ -114,15 +127,23 @@ func (c *corpusTree) ensureDBs() error {
 	seed := c.seed
 	var sigs []detection.Signature
 	r := gogen.NewRand(seed ^ 0x5151)
+	var all []string
 	for _, f := range c.tree.Files {
-		res, err := LoadAndFingerprint(RealFileSystem{}, filepath.Join(c.root, "src", f.Rel))
+		all = append(all, filepath.Join(c.root, "src", f.Rel))
+	}
+	for _, f := range c.tree.DepFiles {
+		all = append(all, filepath.Join(c.root, "depmod", f.Rel))
+	}
+	for _, path := range all {
+		f := struct{ Rel string }{path}
+		res, err := LoadAndFingerprint(RealFileSystem{}, path)
 		if err != nil {
 			return fmt.Errorf("corpus %d: fingerprint %s: %w", seed, f.Rel, err)
 		}
 		for _, fr := range res {
 			short := ShortFunctionName(fr.FunctionName)
-			take := strings.HasPrefix(short, "Shared") || r.Intn(4) == 0
-			if !take || len(sigs) >= 10 {
+			take := strings.HasPrefix(short, "Shared") || strings.HasPrefix(short, "Dep") || r.Intn(4) == 0
+			if !take || len(sigs) >= 14 {
 				continue
 			}
 			fn := fr.GetSSAFunction()
@@ -406,6 +427,11 @@ func runC10(t *vs.Tape, cfg map[string]string) (res vs.Result) {
 		db = ct.pebble
 	}
 	target := filepath.Join(ct.root, "src")
+	scanDeps := ct.tree.DepModule != "" && t.Chance("scan.deps", 1, 2)
+	depsDepth := vs.Pick(t, "scan.depth", "direct", "transitive")
+	if cmd == "scan" && scanDeps {
+		c.Inc("scan_with_deps")
+	}
 	mk := func(fsys simFS) func() error {
 		switch cmd {
 		case "check":
@@ -415,7 +441,7 @@ func runC10(t *vs.Tape, cfg map[string]string) (res vs.Result) {
 			}
 			return func() error { return RunCheckLogic(fsys, target, strict, withScan, d) }
 		case "scan":
-			opts := models.ScanOptions{DBPath: db, Threshold: threshold, ExactOnly: exact, DepsDepth: "direct"}
+			opts := models.ScanOptions{DBPath: db, Threshold: threshold, ExactOnly: exact, DepsDepth: depsDepth, ScanDeps: scanDeps}
 			return func() error { return RunScanLogic(fsys, RealPackageLoader{}, target, opts) }
 		default:
 			return func() error { return RunDiffLogic(fsys, ct.pairOld, ct.pairNew) }
@@ -440,6 +466,30 @@ func runC10(t *vs.Tape, cfg map[string]string) (res vs.Result) {
 	}
 	c.Inc("executions")
 	c.Inc("cmd_" + cmd)
+	if cmd == "scan" && ref.err == nil {
+		var so models.ScanOutput
+		if json.Unmarshal(ref.out, &so) == nil {
+			c.Add("probe_scan_alerts", int64(len(so.Alerts)))
+			c.Add("probe_scan_dep_functions", int64(so.DepsScanned))
+			if len(so.ScannedDeps) > 0 {
+				c.Inc("probe_scans_listing_dependencies")
+			}
+			seenKey := map[string]bool{}
+			for _, a := range so.Alerts {
+				k := a.MatchedFunction + "\x00" + a.SignatureName
+				if seenKey[k] {
+					c.Inc("probe_alert_sort_key_ties")
+				}
+				seenKey[k] = true
+			}
+		}
+	}
+	if cmd == "diff" && ref.err == nil {
+		var do models.DiffOutput
+		if json.Unmarshal(ref.out, &do) == nil {
+			c.Add("probe_diff_renames", int64(do.Summary.RenamedFunctions))
+		}
+	}
 	K := 2 + t.Intn(2, "K")
 	var traces []string
 	for k := 0; k < K; k++ {
@@ -478,7 +528,7 @@ func runC10(t *vs.Tape, cfg map[string]string) (res vs.Result) {
 		res.Violation = vs.Violationf("C10/not-json", "%s output is not valid JSON", cmd)
 	}
 	sort.Strings(traces)
-	res.Digest = vs.Hash(append([]string{cmd, backend, fmt.Sprint(seed, exact, threshold, strict, withScan)}, traces...)...)
+	res.Digest = vs.Hash(append([]string{cmd, backend, fmt.Sprint(seed, exact, threshold, strict, withScan, scanDeps, depsDepth)}, traces...)...)
 	res.Nontrivial = c["park_choice_points"] > 0 || c["r1_nonidentity"] > 0
 	desc["executions"] = K + 1
 	res.Sample = desc
